@@ -34,7 +34,8 @@ pub fn builtin_clamp(x: f64, minVal: f64, maxVal: f64) -> f64 {
 
 #[builtin]
 pub fn builtin_sum(arr: Vec<f64>) -> f64 {
-	arr.iter().sum()
+	// The empty f64 sum is -0.0, std.sum([]) is 0
+	arr.iter().fold(0.0, |acc, v| acc + v)
 }
 
 #[builtin]
